@@ -23,26 +23,21 @@ Opposite(d) == IF d % 4 \in {0, 1} THEN d + 2 ELSE d - 2
 Init == /\ occ = [d \in Drives |-> <<0, 0>>]
         /\ hist = << >>
 
-\* the j-th lowest free drive number (j from 0)
 FreeSet == {d \in Drives : Free(d)}
-RECURSIVE Lowest(_, _)
-Lowest(S, j) == LET m == CHOOSE x \in S : \A y \in S : x <= y
-                IN IF j = 0 THEN m ELSE Lowest(S \ {m}, j - 1)
+\* rank of a free drive among the free drives (0 = lowest free drive number)
+Rank(d) == Cardinality({e \in FreeSet : e < d})
 
 AttachFirst(k) ==
   /\ Cardinality(FreeSet) >= k
   /\ LET img == Len(hist) + 1
-         slot(j) == Lowest(FreeSet, j)
-     IN occ' = [d \in Drives |-> IF \E j \in 0..(k-1) : slot(j) = d
-                                  THEN <<img, CHOOSE j \in 0..(k-1) : slot(j) = d>>
-                                  ELSE occ[d]]
+     IN occ' = [d \in Drives |-> IF Free(d) /\ Rank(d) < k THEN <<img, Rank(d)>> ELSE occ[d]]
   /\ hist' = Append(hist, <<k, "F">>)
 
 Fits(n, k) == /\ \A j \in 0..(k-1) : (n + 2*j) \in Drives /\ Free(n + 2*j)
               /\ (Opposite(n) \in Drives => Free(Opposite(n)))
 
 AttachPhysical(k) ==
-  /\ \E n \in Drives : Fits(n, k)
+  /\ {x \in Drives : Fits(x, k)} # {}     \* (a set test, not \E: TLC would emit one duplicate successor per witness)
   /\ LET img == Len(hist) + 1
          n == CHOOSE x \in Drives : Fits(x, k) /\ \A y \in Drives : Fits(y, k) => x <= y
      IN occ' = [d \in Drives |-> IF \E j \in 0..(k-1) : n + 2*j = d
